@@ -77,6 +77,8 @@ def run(ctx):
     jobs = []
     for i, c in enumerate(cases):
         n = 0
+        if c['id'] == 'P5':
+            continue                # classes that share a type name across namespaces: dict documents cannot tell them apart
         for fam in c02.FAMS:
             for validator in (None, 'soft'):
                 n += 1
